@@ -222,6 +222,10 @@ class Engine:
             raise Unsupported("undeclared field %s.%s" % (cls, name))
         dc, ty, ghost = d
         key = "%s.%s" % (dc, name)
+        if key in getattr(self.reg, "auto_keys", ()) and not getattr(self, "_self_update", False):
+            # a field outside the contracts is read (other than to update itself): what the code does next may depend on a value
+            # about which no invariant is known
+            self.__dict__.setdefault("auto_reads", set()).add(key)
         arr = self.heap_arr(st, key, ty)
         t = z3.simplify(z3.Select(arr, ref))
         sv = SV(ty, t)
